@@ -87,6 +87,13 @@ func (s *sched) Unlock(m *zzverifrt.Mutex) {
 	<-t.resume
 }
 
+// Yield is a pure scheduling point (used by the harness readers).
+func (s *sched) Yield() {
+	t := s.threads[s.cur]
+	s.events <- event{t.id, "yield", nil}
+	<-t.resume
+}
+
 func (s *sched) Access(addr uintptr, write bool, site string) {
 	t := s.threads[s.cur]
 	v := s.vars[addr]
